@@ -115,3 +115,23 @@ package encryption
 //@ prop C13 C19 C02
 //@ ensures[a-cipher-or-an-error] (ret1 == nil ==> ret0 != nil) && (ret1 != nil ==> ret0 == nil)
 
+
+// ------------------------------------------------------------------ C02: what the ciphers emit is the library's encryption of exactly the given value under a fresh random nonce / IV
+//@ func (*gcmCipher).Encrypt
+//@ safety
+//@ prop C02 C19
+//@ ensures[no-ciphertext-without-a-random-nonce] called(ReadFull) && ret1(ReadFull) != nil ==> ret1 != nil && ret0 == nil && !called(Seal)
+//@ ensures[ciphertext-is-the-sealed-value] ret1 == nil ==> called(Seal) && ret0 == ret(Seal) && ret1(ReadFull) == nil
+//@ at call Seal assert[seals-exactly-the-given-value] arg(Seal, 2) == value && arg(Seal, 3) == nil
+
+//@ func (*cfbCipher).Encrypt
+//@ safety
+//@ prop C02 C19
+//@ ensures[no-ciphertext-without-a-random-iv] called(ReadFull) && ret1(ReadFull) != nil ==> ret1 != nil && ret0 == nil && !called(XORKeyStream)
+//@ at call XORKeyStream assert[encrypts-exactly-the-given-value-under-the-random-iv] arg(XORKeyStream, 1) == value && ret1(ReadFull) == nil
+
+//@ func (*base64Cipher).Encrypt
+//@ prop C02 C13
+//@ ensures[inner-cipher-failure-gives-nothing] called(Encrypt) && ret1(Encrypt) != nil ==> ret1 != nil && ret0 == nil
+//@ at call Encrypt assert[the-inner-cipher-gets-the-value] arg(Encrypt, 0) == value
+//@ at call EncodeToString assert[encodes-the-inner-ciphertext] arg(EncodeToString, 1) == ret0(Encrypt) && ret1(Encrypt) == nil
